@@ -1447,7 +1447,7 @@ def run(ctx):
                 ctx.fail(classify(p, -1, oi, ci), dict(inp0, call=-1), ci, oi)
             alive = True
             if p["toks"] is not None:
-                alive = check_model(ctx, p, -1, ci, oi, mod_out, inp0, cumulative=[])
+                alive = check_model(ctx, p, -1, ci, oi, mod_out, inp0, cumulative=[], impl_ok=(oi == ci))
             cum = list(ci["ev"])
             oc, cc = o["calls"].get(k, []), c["calls"].get(k, [])
             for j in range(p.get("ncalls", 0)):
@@ -1461,7 +1461,8 @@ def run(ctx):
                     ctx.extra["exception_message_differs"] = ctx.extra.get("exception_message_differs", 0) + 1
                 if p["toks"] is not None and alive and "skip" not in cc[j]:
                     n_model_cases += 1
-                    alive = check_model(ctx, p, j, cc[j], oc[j], mod_out, inp0, cumulative=cum)
+                    alive = check_model(ctx, p, j, cc[j], oc[j], mod_out, inp0, cumulative=cum,
+                                        impl_ok=same(oc[j], cc[j]))
                     cum += cc[j].get("ev", [])
     ctx.extra["model_cases"] = n_model_cases
     ctx.extra["programs"] = len(progs)
@@ -1469,7 +1470,7 @@ def run(ctx):
                                    "minipy": sum(1 for p in acc if p["toks"] is not None)}
 
 
-def check_model(ctx, p, j, ci, oi, mod_out, inp0, cumulative):
+def check_model(ctx, p, j, ci, oi, mod_out, inp0, cumulative, impl_ok=True):
     """tie: extracted run_scopes vs compiled module, extracted run_cells vs CPython.
     returns False when the run ended (exception) so that later prefixes are not compared"""
     ms = mod_out.get((p["k"], j, "scopes"))
@@ -1498,10 +1499,15 @@ def check_model(ctx, p, j, ci, oi, mod_out, inp0, cumulative):
         mc2 = {"e": mc.get("e"), "trace": mc["trace"]}
     else:
         ms2, mc2 = ms, mc
-    if ms2 != impl:
-        ctx.corr_break("run_scopes vs compiled", dict(inp0, call=j), impl, ms2)
     if mc2 != orc:
         ctx.corr_break("run_cells vs cpython", dict(inp0, call=j), orc, mc2)
+    if not impl_ok:
+        # the compiled module already deviates from CPython here (reported through ctx.fail with its class);
+        # the model of the closure scheme is not expected to reproduce an unmodelled defect, and the states
+        # have diverged: stop comparing this program
+        return ms2 == impl and not ms.get("e")
+    if ms2 != impl:
+        ctx.corr_break("run_scopes vs compiled", dict(inp0, call=j), impl, ms2)
     return not ms.get("e") and not impl.get("e")
 
 
